@@ -23,6 +23,17 @@
 (* An axis is a triple <<min, def, max>> of raw fixed-point integers, a    *)
 (* segment map a sequence of knots <<from, to>> in output units.  `avar`   *)
 (* FALSE or an empty map mean "no avar step".                              *)
+(*                                                                         *)
+(* Round 3: the judged class of segment maps is every sequence of records  *)
+(* whose from-coordinates do not decrease (MapJudged): to-coordinates      *)
+(* anywhere in the F2Dot14 range, decreasing and flat segments, duplicate  *)
+(* from-coordinates (steps), maps without the -1/0/+1 records, one-record  *)
+(* and empty maps.  The avar function is the OpenType one: piecewise       *)
+(* linear between neighbouring records, the identity where no segment      *)
+(* exists (fewer than two records, above the last record, Dev_BelowFirst   *)
+(* below the first), and the result is clamped to [-1, 1] for EVERY map.   *)
+(* Part 3 states where the records of an fvar table are (axesArrayOffset,  *)
+(* axisSize, instanceSize) and reads them from the table bytes.            *)
 (***************************************************************************)
 EXTENDS Fix, FiniteSets
 
@@ -46,6 +57,14 @@ MapUsable(U, map) ==
      /\ \A k \in 1 .. Len(map) - 1 : KnotF(map, k) < KnotF(map, k + 1)
      /\ \A k \in 1 .. Len(map) : KnotT(map, k) >= -U /\ KnotT(map, k) <= U
 MapMonotone(map) == \A k \in 1 .. Len(map) - 1 : KnotT(map, k) <= KnotT(map, k + 1)
+\* The class of maps that is judged: from-coordinates in non-decreasing order, nothing else demanded.
+MapJudged(map) == \A k \in 1 .. Len(map) - 1 : KnotF(map, k) <= KnotF(map, k + 1)
+\* "the avar map is monotone": as a function on [-1, 1].  With fewer than two records it is the identity;
+\* otherwise the to-coordinates must not decrease and the records must cover [-1, 1] (where no segment
+\* exists the function is the identity, which in general jumps against a record that is not a fixed point).
+MonotoneDemanded(U, map) ==
+  \/ Len(map) < 2
+  \/ MapMonotone(map) /\ KnotF(map, 1) <= -U /\ KnotF(map, Len(map)) >= U
 MapValid(U, map) ==
   \/ map = <<>>
   \/ /\ MapUsable(U, map) /\ MapMonotone(map)
@@ -72,11 +91,18 @@ EndClass(ax, v) ==
 \* The exact result without avar: P/Q = U * num / den, slope 1 (tolerance Q).
 PlainExact(U, n) == [P |-> ZMul(ZOf(U), n.num), Q |-> n.den, TolQ |-> n.den]
 
-\* Segment k (knots k, k+1) contains the position x = U*num/den  iff  f_k*den <= U*num <= f_k+1*den
+\* sign of (position x = U*num/den) - f
+PosCmp(U, n, f) == ZCmp(ZMul(ZOf(U), n.num), ZMul(ZOf(f), n.den))
+
+\* Segment k (knots k, k+1; not of zero width) contains the position x  iff  f_k*den <= U*num <= f_k+1*den
 SegHolds(U, map, n, k) ==
-  LET x == ZMul(ZOf(U), n.num) IN
-  /\ ZLe(ZMul(ZOf(KnotF(map, k)), n.den), x)
-  /\ ZLe(x, ZMul(ZOf(KnotF(map, k + 1)), n.den))
+  /\ KnotF(map, k) < KnotF(map, k + 1)
+  /\ PosCmp(U, n, KnotF(map, k)) >= 0
+  /\ PosCmp(U, n, KnotF(map, k + 1)) <= 0
+
+\* the position is less than one unit of the 16.16 intermediate (a quarter output unit) away from record k
+RecNear(U, map, n, k) ==
+  ZLt(ZMul(ZOf(4), ZAbs(ZSub(ZMul(ZOf(U), n.num), ZMul(ZOf(KnotF(map, k)), n.den)))), n.den)
 
 \* exact value on segment k:  t_k + (x - f_k) * dt/df  =  (t_k*den*df + (U*num - f_k*den)*dt) / (den*df)
 \* tolerance max(1, |dt|/df) * Q = max(den*df, den*|dt|)
@@ -89,24 +115,69 @@ SegExact(U, map, n, k) ==
       uq == ZMul(ZOf(U), q)
   IN [P |-> IF ZLt(uq, p) THEN uq ELSE IF ZLt(p, ZNeg(uq)) THEN ZNeg(uq) ELSE p,   \* final clamp
       Q |-> q,
-      TolQ |-> ZMax(q, ZMul(n.den, ZAbs(dt)))]
+      \* Dev_WideSegment: the prescribed procedure rounds the ratio (position in the segment) to one 16.16
+      \* unit, which costs |dt| / 4 output units - within max(1, slope) for every segment up to 1.0 wide,
+      \* i.e. for every map that has the 0 record; a wider segment (map without the 0 record, or with
+      \* from-coordinates beyond -1 / +1) is granted twice the tolerance.
+      TolQ |-> LET t == ZMax(q, ZMul(n.den, ZAbs(dt))) IN
+               IF KnotF(map, k + 1) - KnotF(map, k) > U THEN ZAdd(t, t) ELSE t]
+
+\* the unclamped value of segment k at the position leaves [-1, 1]: the final clamp decides
+SegClamped(U, map, n, k) ==
+  LET df == ZOf(KnotF(map, k + 1) - KnotF(map, k))
+      dt == ZOf(KnotT(map, k + 1) - KnotT(map, k))
+      q  == ZMul(n.den, df)
+      p  == ZAdd(ZMul(ZOf(KnotT(map, k)), q),
+                 ZMul(ZSub(ZMul(ZOf(U), n.num), ZMul(ZOf(KnotF(map, k)), n.den)), dt))
+      uq == ZMul(ZOf(U), q)
+  IN ZLt(uq, p) \/ ZLt(p, ZNeg(uq))
 
 \* |out*Q - P| <= TolQ
 Within(e, out) == ZLe(ZAbs(ZSub(ZMul(ZOf(out), e.Q), e.P)), e.TolQ)
 
-\* Dev_SegmentAtKnot: a position exactly on an interior knot belongs to both neighbouring
-\* segments (same value, different slope, hence different tolerance); either is conformant.
+\* The avar step on the default-normalised position n, for a map with from-coordinates in order.
+\* Dev_SegmentAtKnot: a position exactly on an interior record belongs to both neighbouring segments
+\*   (same value, different slope, hence different tolerance); either is conformant.
+\* Dev_StepAtRecord: where the function jumps (duplicate from-coordinates; the first / last record of a
+\*   map that does not cover [-1, 1]) a position less than one 16.16 unit away from the record may take
+\*   the record's to-coordinate exactly - the position itself is only known to one 16.16 unit.  With
+\*   several records on one from-coordinate any of their to-coordinates is conformant.
+\* Dev_BelowFirst: OpenType's scan never takes the first record as the end of a segment ("which is for
+\*   -1"), so below the first record of a map without the -1 record the text gives no rule: the identity
+\*   and the extension of the first segment are both accepted; when that segment is narrower than 1/64
+\*   the extension does not fit the 16.16 intermediate and only the range clause is judged there.
+AvarAccurate(U, map, n, out) ==
+  LET L == Len(map) IN
+  IF L < 2 THEN Within(PlainExact(U, n), out)
+  ELSE \/ \E k \in 1 .. L - 1 : SegHolds(U, map, n, k) /\ Within(SegExact(U, map, n, k), out)
+       \/ \E k \in 1 .. L : RecNear(U, map, n, k) /\ out = Clamp(KnotT(map, k), -U, U)
+       \/ PosCmp(U, n, KnotF(map, L)) > 0 /\ Within(PlainExact(U, n), out)
+       \/ /\ PosCmp(U, n, KnotF(map, 1)) < 0
+          /\ \/ Within(PlainExact(U, n), out)
+             \/ KnotF(map, 2) - KnotF(map, 1) < U \div 64
+             \/ Within(SegExact(U, map, n, 1), out)
+
 Accurate(U, ax, avar, map, v, out) ==
   LET n == DefNorm(ax, v) IN
-  IF ~avar \/ map = <<>> THEN Within(PlainExact(U, n), out)
-  ELSE \E k \in 1 .. Len(map) - 1 : SegHolds(U, map, n, k) /\ Within(SegExact(U, map, n, k), out)
+  IF ~avar THEN Within(PlainExact(U, n), out) ELSE AvarAccurate(U, map, n, out)
 
-\* min / def / max become exactly -1 / 0 / +1 (and stay so under a map that has the mandatory knot)
+\* which rule of the avar step decides the position (vacuity counters; classification of inputs only)
+AvarRule(U, map, n) ==
+  LET L == Len(map) IN
+  IF L < 2 THEN "identity"
+  ELSE IF PosCmp(U, n, KnotF(map, 1)) < 0 THEN "below"
+  ELSE IF PosCmp(U, n, KnotF(map, L)) > 0 THEN "above"
+  ELSE IF \E k \in 1 .. L : PosCmp(U, n, KnotF(map, k)) = 0 THEN "record"
+  ELSE "segment"
+
+\* min / def / max become exactly -1 / 0 / +1, and under a map with a record on that position exactly the
+\* (clamped) to-coordinate of such a record
 EndpointExact(U, ax, avar, map, v, out) ==
   LET c == EndClass(ax, v) IN
   IF c = 2 THEN TRUE
-  ELSE IF ~avar \/ map = <<>> THEN out = c * U
-  ELSE \A k \in 1 .. Len(map) : KnotF(map, k) = c * U => out = KnotT(map, k)
+  ELSE IF ~avar \/ Len(map) < 2 THEN out = c * U
+  ELSE LET ks == {k \in 1 .. Len(map) : KnotF(map, k) = c * U} IN
+       ks = {} \/ \E k \in ks : out = Clamp(KnotT(map, k), -U, U)
 
 InRange(U, out) == -U <= out /\ out <= U
 
@@ -156,6 +227,40 @@ RefNormalize(FB, ax, avar, map, v) ==
 \* ---- fixed-point conversions (F2Dot14 <-> Fixed), full width ---------------------------
 F2Dot14ToFixed(x) == 4 * x
 FixedToF2Dot14(f) == (f + 2) \div 4
+
+\* ---- Part 3: where the records of an fvar table are ---------------------------------------------
+\* (OpenType fvar: the axis array starts axesArrayOffset bytes from the start of the table, its records
+\*  are axisSize bytes apart; the instance array follows the axis array; an instance record is
+\*  instanceSize bytes: subfamilyNameID, flags, axisCount coordinates and, when instanceSize is
+\*  4*axisCount + 6, postScriptNameID.)  Offsets are 0-based, b is the table as a sequence of bytes.
+FvarAxisPos(off, asz, i) == off + i * asz                              \* axis record i = 0 ..
+FvarInstPos(off, asz, n, isz, j) == off + n * asz + j * isz             \* instance record j = 0 ..
+FvarInstSizeOK(n, isz) == isz = 4 * n + 4 \/ isz = 4 * n + 6
+FvarLen(off, asz, n, isz, ni) == off + n * asz + ni * isz
+
+BU16(b, p) == b[p + 1] * 256 + b[p + 2]
+BI32(b, p) == (IF b[p + 1] >= 128 THEN b[p + 1] - 256 ELSE b[p + 1]) * 16777216
+              + b[p + 2] * 65536 + b[p + 3] * 256 + b[p + 4]
+
+\* what a reader of the table must see
+FvarAxes(b) ==
+  LET off == BU16(b, 4) n == BU16(b, 8) asz == BU16(b, 10) IN
+  [i \in 1 .. n |->
+     LET p == FvarAxisPos(off, asz, i - 1) IN
+     <<BU16(b, p), BU16(b, p + 2), BI32(b, p + 4), BI32(b, p + 8), BI32(b, p + 12), BU16(b, p + 16), BU16(b, p + 18)>>]
+FvarInstances(b) ==
+  LET off == BU16(b, 4) n == BU16(b, 8) asz == BU16(b, 10) ni == BU16(b, 12) isz == BU16(b, 14) IN
+  [j \in 1 .. ni |->
+     LET p == FvarInstPos(off, asz, n, isz, j - 1) IN
+     [sub |-> BU16(b, p), flags |-> BU16(b, p + 2),
+      coords |-> [k \in 1 .. n |-> BI32(b, p + 4 * k)],
+      ps |-> IF isz > 4 * n + 4 THEN BU16(b, p + 4 + 4 * n) ELSE -1]]
+\* the tables of the check are well-formed: everything inside the table, sizes as OpenType allows
+FvarWellFormed(b) ==
+  /\ Len(b) >= 16 /\ BU16(b, 0) = 1
+  /\ LET off == BU16(b, 4) n == BU16(b, 8) asz == BU16(b, 10) ni == BU16(b, 12) isz == BU16(b, 14) IN
+     /\ off >= 16 /\ asz >= 20 /\ FvarInstSizeOK(n, isz)
+     /\ FvarLen(off, asz, n, isz, ni) <= Len(b)
 
 \* ---- tuple length ---------------------------------------------------------------------
 \* normalize(tuple) succeeds iff the tuple has one value per axis
